@@ -14,7 +14,7 @@
 use delta::verif_hooks as dh;
 use serde_json::json;
 use shuttle::rand::Rng as _;
-use shuttle::scheduler::{PctScheduler, RandomScheduler, ReplayScheduler};
+use shuttle::scheduler::{PctScheduler, RandomScheduler};
 use shuttle::{Config, FailurePersistence, MaxSteps, Runner};
 use simcore::evidence::Evidence;
 use simcore::rng::{fnv64, mix, tag, verif_seed};
@@ -23,6 +23,138 @@ use std::io::Write as _;
 use std::panic::{catch_unwind, AssertUnwindSafe};
 use std::sync::Mutex;
 use std::time::Instant;
+
+// ---------------------------------------------------------------------------
+// Our own schedule record: every decision of the wrapped scheduler (which task runs next, every
+// value handed to shuttle::rand) is logged, one execution at a time.  The replay file holds this
+// list; the replayer follows it exactly and, if the code under test has changed so that the record
+// no longer fits (task not runnable, record exhausted), falls back to "first runnable task / fixed
+// PRNG" so that a repaired tree replays to a clean end instead of crashing the scheduler.
+
+use shuttle::scheduler::{Schedule, Scheduler, Task, TaskId};
+
+static DECISIONS: Mutex<Vec<i128>> = Mutex::new(Vec::new());
+static DISTINCT_SCHEDULES: Mutex<Option<BTreeSet<u64>>> = Mutex::new(None);
+static SCHED_POINTS: std::sync::atomic::AtomicU64 = std::sync::atomic::AtomicU64::new(0);
+
+fn note_schedule_end() {
+    let d = DECISIONS.lock().unwrap();
+    if d.is_empty() {
+        return;
+    }
+    let mut h: u64 = 0xcbf29ce484222325;
+    let mut tasks = 0u64;
+    for x in d.iter() {
+        if *x >= 0 {
+            tasks += 1;
+        }
+        for b in x.to_le_bytes() {
+            h ^= b as u64;
+            h = h.wrapping_mul(0x100000001b3);
+        }
+    }
+    SCHED_POINTS.fetch_add(tasks, std::sync::atomic::Ordering::Relaxed);
+    let mut g = DISTINCT_SCHEDULES.lock().unwrap();
+    let set = g.get_or_insert_with(BTreeSet::new);
+    if set.len() < 2_000_000 {
+        set.insert(h);
+    }
+}
+
+/// Encoding: task decision = task id (>= 0); random value v = -(v as i128) - 1.
+struct Recording<S: Scheduler> {
+    inner: S,
+}
+
+impl<S: Scheduler> Scheduler for Recording<S> {
+    fn new_execution(&mut self) -> Option<Schedule> {
+        note_schedule_end();
+        DECISIONS.lock().unwrap().clear();
+        self.inner.new_execution()
+    }
+    fn next_task(&mut self, runnable: &[&Task], current: Option<TaskId>, is_yielding: bool) -> Option<TaskId> {
+        let r = self.inner.next_task(runnable, current, is_yielding);
+        if let Some(t) = r {
+            DECISIONS.lock().unwrap().push(usize::from(t) as i128);
+        }
+        r
+    }
+    fn next_u64(&mut self) -> u64 {
+        let v = self.inner.next_u64();
+        DECISIONS.lock().unwrap().push(-(v as i128) - 1);
+        v
+    }
+}
+
+struct Replayer {
+    record: Vec<i128>,
+    pos: usize,
+    started: bool,
+    diverged: bool,
+    fallback: u64,
+}
+
+impl Replayer {
+    fn new(record: Vec<i128>) -> Self {
+        Replayer { record, pos: 0, started: false, diverged: false, fallback: 0x1234_5678 }
+    }
+}
+
+impl Scheduler for Replayer {
+    fn new_execution(&mut self) -> Option<Schedule> {
+        if self.started {
+            None
+        } else {
+            self.started = true;
+            Some(Schedule::new(0))
+        }
+    }
+    fn next_task(&mut self, runnable: &[&Task], _current: Option<TaskId>, _is_yielding: bool) -> Option<TaskId> {
+        if !self.diverged {
+            if let Some(x) = self.record.get(self.pos) {
+                if *x >= 0 {
+                    let want = TaskId::from(*x as usize);
+                    if runnable.iter().any(|t| t.id() == want) {
+                        self.pos += 1;
+                        return Some(want);
+                    }
+                }
+            }
+            self.diverged = true;
+        }
+        Some(runnable[0].id())
+    }
+    fn next_u64(&mut self) -> u64 {
+        if !self.diverged {
+            if let Some(x) = self.record.get(self.pos) {
+                if *x < 0 {
+                    self.pos += 1;
+                    return (-(*x) - 1) as u64;
+                }
+            }
+            self.diverged = true;
+        }
+        simcore::rng::splitmix64(&mut self.fallback)
+    }
+}
+
+fn encode_record(d: &[i128]) -> String {
+    d.iter().map(|x| if *x >= 0 { format!("t{}", x) } else { format!("r{}", (-(*x) - 1) as u64) }).collect::<Vec<_>>().join(" ")
+}
+
+fn decode_record(s: &str) -> Vec<i128> {
+    s.split_whitespace()
+        .filter_map(|w| {
+            if let Some(t) = w.strip_prefix('t') {
+                t.parse::<i128>().ok()
+            } else if let Some(r) = w.strip_prefix('r') {
+                r.parse::<u64>().ok().map(|v| -(v as i128) - 1)
+            } else {
+                None
+            }
+        })
+        .collect()
+}
 
 // ---------------------------------------------------------------------------
 // statistics shared across executions of one worker process (plain std: not scheduled)
@@ -403,7 +535,7 @@ fn s2_references(dir: &str) {
     // sequential reference outputs, one deterministic execution per (variant, launched)
     for vi in 0..VARIANTS.len() {
         for launched in [false, true] {
-            let runner = Runner::new(RandomScheduler::new_from_seed(1, 1), config(dir, true));
+            let runner = Runner::new(Recording { inner: RandomScheduler::new_from_seed(1, 1) }, config(dir, true));
             runner.run(move || scenario_s2(true, Some((vi, launched))));
         }
     }
@@ -414,7 +546,12 @@ fn run_worker(scenario: &str, sched: &str, seed: u64, iters: usize, dir: &str, c
     let scenario_owned = scenario.to_string();
     let big = scenario == "S2";
     if big {
-        s2_references(dir);
+        if let Err(e) = catch_unwind(AssertUnwindSafe(|| s2_references(dir))) {
+            let msg = e.downcast_ref::<String>().cloned().or_else(|| e.downcast_ref::<&str>().map(|s| s.to_string())).unwrap_or_default();
+            let rec = encode_record(&DECISIONS.lock().unwrap_or_else(|e| e.into_inner()));
+            let _ = std::fs::write(format!("{}/result.json", dir), serde_json::to_string(&json!({"failure": format!("(sequential reference run) {}", msg), "record": rec, "reference_pass": true, "executions": 0})).unwrap());
+            return 1;
+        }
     }
     let cfg = config(dir, big);
     let body = move || {
@@ -426,11 +563,14 @@ fn run_worker(scenario: &str, sched: &str, seed: u64, iters: usize, dir: &str, c
     };
     let t0 = Instant::now();
     let res = catch_unwind(AssertUnwindSafe(|| match sched {
-        "pct1" => Runner::new(PctScheduler::new_from_seed(seed, 1, iters), cfg).run(body),
-        "pct2" => Runner::new(PctScheduler::new_from_seed(seed, 2, iters), cfg).run(body),
-        "pct3" => Runner::new(PctScheduler::new_from_seed(seed, 3, iters), cfg).run(body),
-        _ => Runner::new(RandomScheduler::new_from_seed(seed, iters), cfg).run(body),
+        "pct1" => Runner::new(Recording { inner: PctScheduler::new_from_seed(seed, 1, iters) }, cfg).run(body),
+        "pct2" => Runner::new(Recording { inner: PctScheduler::new_from_seed(seed, 2, iters) }, cfg).run(body),
+        "pct3" => Runner::new(Recording { inner: PctScheduler::new_from_seed(seed, 3, iters) }, cfg).run(body),
+        _ => Runner::new(Recording { inner: RandomScheduler::new_from_seed(seed, iters) }, cfg).run(body),
     }));
+    if res.is_ok() {
+        note_schedule_end();
+    }
     let mut out = serde_json::Map::new();
     let st = STATS.lock().unwrap_or_else(|e| e.into_inner()).take().unwrap_or_default();
     out.insert("executions".into(), json!(st.executions));
@@ -439,6 +579,11 @@ fn run_worker(scenario: &str, sched: &str, seed: u64, iters: usize, dir: &str, c
     out.insert("steps".into(), json!(st.steps));
     out.insert("samples".into(), json!(st.samples));
     out.insert("wall_s".into(), json!(t0.elapsed().as_secs_f64()));
+    out.insert("distinct_schedules".into(), json!(DISTINCT_SCHEDULES.lock().unwrap_or_else(|e| e.into_inner()).as_ref().map(|s| s.len()).unwrap_or(0)));
+    out.insert("scheduling_points".into(), json!(SCHED_POINTS.load(std::sync::atomic::Ordering::Relaxed)));
+    if res.is_err() {
+        out.insert("record".into(), json!(encode_record(&DECISIONS.lock().unwrap_or_else(|e| e.into_inner()))));
+    }
     let code = match res {
         Ok(_) => 0,
         Err(e) => {
@@ -469,17 +614,38 @@ fn replay(path: &str) -> i32 {
     let scenario = v["scenario"].as_str().unwrap_or("S1").to_string();
     let cap = v["cap"].as_u64().unwrap_or(4);
     let schedule = v["schedule"].as_str().unwrap_or("").to_string();
+    let reference_pass = v["reference_pass"].as_bool().unwrap_or(false);
+    let fixed_variant = v["fixed"].as_array().map(|a| (a[0].as_u64().unwrap_or(0) as usize, a[1].as_bool().unwrap_or(false)));
     let dir = format!("{}/replay-tmp", scratch());
     std::fs::create_dir_all(&dir).ok();
     let big = scenario == "S2";
+    let mut refs_failed: Option<String> = None;
     if big {
-        s2_references(&dir);
+        if let Err(e) = catch_unwind(AssertUnwindSafe(|| s2_references(&dir))) {
+            refs_failed = Some(e.downcast_ref::<String>().cloned().or_else(|| e.downcast_ref::<&str>().map(|s| s.to_string())).unwrap_or_default());
+        }
     }
+    if reference_pass || refs_failed.is_some() {
+        // the recorded failure was in (or this tree fails already in) the deterministic sequential reference run
+        let _ = std::fs::remove_dir_all(&dir);
+        return match refs_failed {
+            Some(m) => {
+                println!("VIOLATION property=C20 replay={}", path);
+                println!("  (sequential reference run) {}", m.lines().next().unwrap_or(""));
+                1
+            }
+            None => {
+                println!("replay {}: no violation (property holds on this tree for this schedule)", path);
+                0
+            }
+        };
+    }
+    let _ = fixed_variant;
     let mut cfg = config(&dir, big);
     cfg.failure_persistence = FailurePersistence::None;
     let sc = scenario.clone();
     let res = catch_unwind(AssertUnwindSafe(|| {
-        Runner::new(ReplayScheduler::new_from_encoded(&schedule), cfg).run(move || {
+        Runner::new(Replayer::new(decode_record(&schedule)), cfg).run(move || {
             if sc == "S1" {
                 scenario_s1(cap, cap > 1)
             } else {
@@ -571,6 +737,8 @@ fn master(tier: &str, seed: u64) -> i32 {
     let mut classes: BTreeMap<String, u64> = BTreeMap::new();
     let mut distinct: BTreeSet<u64> = BTreeSet::new();
     let mut executions = 0u64;
+    let mut distinct_schedules = 0u64;
+    let mut sched_points = 0u64;
     let mut steps = 0u64;
     let mut exit = 0;
     let mut reported = 0;
@@ -579,6 +747,8 @@ fn master(tier: &str, seed: u64) -> i32 {
     let known: serde_json::Value = std::fs::read_to_string(&known_path).ok().and_then(|t| serde_json::from_str(&t).ok()).unwrap_or(json!({}));
     for (i, code, v) in &results {
         executions += v["executions"].as_u64().unwrap_or(0);
+        distinct_schedules += v["distinct_schedules"].as_u64().unwrap_or(0);
+        sched_points += v["scheduling_points"].as_u64().unwrap_or(0);
         steps += v["steps"].as_u64().unwrap_or(0);
         if let Some(a) = v["distinct_traces"].as_array() {
             for x in a {
@@ -617,9 +787,9 @@ fn master(tier: &str, seed: u64) -> i32 {
             if reported >= 3 {
                 continue;
             }
-            // the persisted schedule
-            let sched_file = format!("{}/w{}/schedule000.txt", base, i);
-            let schedule = std::fs::read_to_string(&sched_file).unwrap_or_default();
+            // the recorded decision sequence of the failing execution
+            let schedule = v["record"].as_str().unwrap_or("").to_string();
+            let reference_pass = v["reference_pass"].as_bool().unwrap_or(false);
             // minimise: re-search with the scenario capped ever lower, keep the shortest failing schedule
             let mut best = (schedule.clone(), *cap, msg.clone());
             if sc == "S1" {
@@ -631,7 +801,7 @@ fn master(tier: &str, seed: u64) -> i32 {
                         if st.code() == Some(1) {
                             let r: serde_json::Value = std::fs::read_to_string(format!("{}/result.json", dir)).ok().and_then(|t| serde_json::from_str(&t).ok()).unwrap_or(json!({}));
                             let m2 = r["failure"].as_str().unwrap_or("").to_string();
-                            let s2 = std::fs::read_to_string(format!("{}/schedule000.txt", dir)).unwrap_or_default();
+                            let s2 = r["record"].as_str().unwrap_or("").to_string();
                             if oracle_of(&m2) == oracle && !s2.is_empty() && s2.len() <= best.0.len() {
                                 best = (s2, c, m2);
                                 break;
@@ -644,7 +814,7 @@ fn master(tier: &str, seed: u64) -> i32 {
             let rdir = std::env::var("VERIF_REPLAY_DIR").unwrap_or_else(|_| format!("{}/replays", verif_root()));
             std::fs::create_dir_all(&rdir).ok();
             let path = format!("{}/C20-{}-{}.json", rdir, oracle, reported);
-            let body = json!({"property": "C20", "engine": "E3-sched(shuttle)", "seed": seed, "scenario": sc, "scheduler": sd, "cap": best.1, "oracle": oracle, "message": best.2, "schedule": best.0});
+            let body = json!({"property": "C20", "engine": "E3-sched(shuttle)", "seed": seed, "scenario": sc, "scheduler": sd, "cap": best.1, "oracle": oracle, "message": best.2, "reference_pass": reference_pass, "schedule": best.0});
             let _ = std::fs::write(&path, serde_json::to_string_pretty(&body).unwrap() + "\n");
             println!("VIOLATION property=C20 replay={}", path);
             println!("  oracle={} scenario={} {}", oracle, sc, best.2.lines().next().unwrap_or(""));
@@ -658,6 +828,8 @@ fn master(tier: &str, seed: u64) -> i32 {
         ev.counters.insert(format!("order_class.{}", k), *v);
     }
     ev.counters.insert("workers".into(), plan.len() as u64);
+    ev.counters.insert("distinct_schedules_by_decision_hash_summed_over_workers".into(), distinct_schedules);
+    ev.counters.insert("scheduling_points_total".into(), sched_points);
     ev.counters.insert("trace_events_total".into(), steps);
     ev.violations = reported as u64;
     ev.extra.insert("engine".into(), json!("E3-sched: shuttle 0.9.3, RandomScheduler and PctScheduler(depth 1..3), seeded; worker processes (the static shuttle atomic is one per process)"));
